@@ -30,15 +30,31 @@ REQUIRED = {t: {"with_zero_degree": 30, "with_repeated_pair": 30, "with_self_loo
 def gen_cases(tier, seed):
     n = 500 if tier == "quick" else 60000
     cases = [{"seed": seed * 100183 + i, "nmax": 200 if i % 8 == 0 else 40} for i in range(n)]
+    # scale: an edge list with more than 2**20 entries (a network of 180 000 vertices in 2-cliques and triangles)
+    for i in range(1 if tier == "quick" else 2):
+        cases.append({"seed": seed * 100183 + 910000 + i, "huge": True, "_cost": 3000})
     if tier == "thorough":
         cases.append({"kind": "repo-tests", "seed": seed, "_cost": 500})
     return cases
 
 
-def make_edge_list(rng, res, nmax):
+def make_edge_list(rng, res, nmax, huge=False):
     import gcmpy
     special = rng.random()
-    if special < 0.03:
+    if huge:
+        cfg = {"flavour": "fast", "motifs": [["clique", 2], ["clique", 3]], "names": ["e", "t"], "decoy": False, "lib_arg": "list", "scratch": False,
+               "path": "direct", "use_library": True}
+        N = rng.randint(176000, 190000)
+        N -= N % 6
+        jds = [(6, 3)] * N
+        for _ in range(2000):
+            jds[rng.randrange(N)] = (0, 0)
+        # restore divisibility: totals of both columns must stay multiples of 2 and 3
+        z = sum(1 for jd in jds if jd == (0, 0))
+        while (6 * (N - z)) % 2 or (3 * (N - z)) % 3:
+            z += 1
+        res.count("edge_lists_with_more_than_2**20_entries")
+    elif special < 0.03:
         cfg = gen.make_fast_config(rng)
         cfg["flavour"] = "fast"
         N = rng.randint(1, 12)
@@ -129,7 +145,7 @@ def run_case(case):
         return res
     res = Result()
     rng = random.Random(case["seed"])
-    cfg, jds, el = make_edge_list(rng, res, case.get("nmax", 40))
+    cfg, jds, el = make_edge_list(rng, res, case.get("nmax", 40), huge=bool(case.get("huge")))
     res.count("edge_lists")
     cols0 = copy.deepcopy(el_columns(el))
     pairs = Counter(gen.upair(e) for e in cols0[0])
